@@ -160,7 +160,7 @@ class Scenario:
         # stdin_file: standard input is a regular file instead of a pipe, so that every read(2) of a message larger than one
         # buffer returns a full buffer (a pipe fed by the parent returns whatever has arrived: call indices would not be reproducible)
         self.stdin_file = stdin_file
-        self.config = config.replace('@R@', self.root)
+        self.config = config.replace('@R@', self.root).replace('@B@', os.path.basename(self.root))     # @B@: the root's own name (`../@B@/x`)
         self.stdin = stdin
         self.args = list(args)
         # a value of None removes the variable from the environment of the run (HOME, TMPDIR, TZ unset)
